@@ -42,7 +42,7 @@ impl TraitHandler for HashUnionHandler {
                 #[inline]
                 fn hash<H: ::core::hash::Hasher>(&self, state: &mut H) {
                     let size = ::core::mem::size_of::<Self>();
-                    let data = unsafe { ::core::slice::from_raw_parts(self as *const Self as *const u8, size) };
+                    let data = unsafe { ::core::slice::from_raw_parts(self as *const Self as *const ::core::primitive::u8, size) };
 
                     ::core::hash::Hash::hash(data, state)
                 }
